@@ -479,7 +479,11 @@ func cmdCheck(id, tier string) int {
 			fmt.Println(err)
 			die(exitUnwell, "cannot build the %s engine from the current /repo tree", spec.Also)
 		}
-		alsoOps = schedOps(alsoBin, id, master, tmp)
+		if spec.Also == "sched" {
+			alsoOps = schedOps(alsoBin, id, master, tmp)
+		} else {
+			alsoOps = worldOps(id, master)
+		}
 		n, b := spec.AlsoRuns, 30*time.Second
 		if tier == "thorough" {
 			n, b = 1<<30, budget/4
